@@ -69,8 +69,12 @@ def run_history(ld, n, limited, mem, ops, keyed):
         try:
             # the same threshold (1000 bytes) spelled as a number of bytes, as a share of the total memory, and as a size string
             # (size strings are binary: '1 KB' = '1 KiB' = 1024 bytes)
-            spelling, T = [(1000, 1000), ('50%', 1000), ('1000 B', 1000), (' 50 %', 1000), ('1000', 1000), ('1 KB', 1024), ('1 KiB', 1024), ('2 KB', 2048)][(n + len(ops) + len(mem)) % 8]
-            if (n + len(ops)) % 4 == 1:
+            spelling, T = [(1000, 1000), ('50%', 1000), ('1000 B', 1000), (' 50 %', 1000), ('1000', 1000), ('1 KB', 1024), ('1 KiB', 1024), ('2 KB', 2048),
+                           # the documented default of ds.cache(): "8 GB" (binary), whether the argument is left out or passed as None
+                           ('DEFAULT', 8 * 1024 ** 3), ('NONE', 8 * 1024 ** 3)][(n + len(ops) + len(mem)) % 10]
+            if limited and spelling in ('DEFAULT', 'NONE'):
+                root = up.cache() if spelling == 'DEFAULT' else up.cache(keep_mem_free=None)
+            elif (n + len(ops)) % 4 == 1:
                 root = ld.core.CacheDataset(up, spelling if limited else None, immutable_warranty='copy')
             elif not limited:
                 root = ld.core.CacheDataset(up, None)
